@@ -130,7 +130,9 @@ def call(da, op, ds_accessor=False):
         return s.split(fmin=0.1, fmax=0.3, dmin=40.0, dmax=200.0)
     if op == "scale_by_hs":
         return s.scale_by_hs("0.5*hs+1", hs_min=1.0)
-    w = wind_args(da)
+    if op not in ("ptm1", "ptm1_smooth", "ptm2", "ptm3", "ptm4", "ptm5", "bbox"):
+        return getattr(s, op)()
+    w = wind_args(da) if op in ("ptm1", "ptm1_smooth", "ptm2", "ptm4") else None
     if op == "ptm1":
         return s.partition.ptm1(w["wspd"], w["wdir"], w["dpt"], swells=3)
     if op == "ptm1_smooth":
